@@ -6,7 +6,7 @@ from typing import Dict, List, Optional, Set
 
 from . import astu
 from .facts import Run
-from .interp import Ctx, analyse_method
+from .interp import Ctx, Frame, analyse_method
 from .model import AnalysisError, iter_functions
 from .report import RuleResult
 from .terms import Const
@@ -288,6 +288,17 @@ def rule_RE(run: Run) -> RuleResult:
             if e.kind == "store" and len(e.args) == 2 and e.args[0].key() == T_KEY and not (e.target is not None and e.target.key().startswith("call:pop(")):
                 ok2, d2 = False, f"restores {e.target.key()[:60] if e.target is not None else None}, not the value popped from the per-entry stack"
     res.add("labrea.runtime.Runtime.__exit__:restores the runtime saved by the matching entry", ok2, f, ex.lineno, d2, nec)
+    # the per-thread stack may be discarded only once it is empty (an outer entry of the same runtime still needs it)
+    ok3, d3 = True, "the thread's stack is dropped only when empty"
+    for p in xps:
+        at = Frame.atoms(p.conds)
+        for e in p.events:
+            if e.kind == "delete" and len(e.args) == 2 and OWN_THREAD in e.args[1].key():
+                stack_k = f"getitem({e.args[0].key()},{OWN_THREAD})"
+                empty = at.get(stack_k) is False or at.get(f"call:len({stack_k})") is False or at.get(f"cmp:Eq(call:len({stack_k}),Const(0))") is True
+                if not empty:
+                    ok3, d3 = False, f"del {e.text} on a path that did not establish the stack is empty (conditions {[c[0] for c in p.conds]}): a nested entry of the same runtime loses its saved runtime"
+    res.add("labrea.runtime.Runtime.__exit__:per-thread stack discarded only when empty", ok3, f, ex.lineno, d3, nec)
     return res
 
 
@@ -768,6 +779,27 @@ def rule_CW(run: Run) -> RuleResult:
                         created_in_loop = any(isinstance(a_, (ast.Assign, ast.AnnAssign)) and ast.unparse(a_.targets[0] if isinstance(a_, ast.Assign) else a_.target) == c.args[1].id for a_ in ast.walk(lp))
                         ok = not created_in_loop
     res.add("labrea.dataset.Dataset.overload:registers the implementation under every alias", ok, ds.module.relpath, ovl.lineno if ovl else 0, "", nec)
+    # a single alias is registered as itself, a list of aliases element by element (read off the decorator's paths)
+    ok_a = ovl is not None
+    why_a = ""
+    if ovl is not None:
+        from .interp import analyse_method_result_call
+        from .terms import Sym as _Sym
+        alias_p = astu.param_names(ovl)[0]
+        seen_kinds = set()
+        for p in analyse_method_result_call(Ctx(repo), ds, "overload", [_Sym("func")]):
+            if p.status != "ret":
+                continue
+            is_list = Frame.atoms(p.conds).get(f"call:isinstance({alias_p},name<list>)")
+            keys_ = [e.args[0].key() for e in p.events if e.kind == "call" and e.text.endswith("register") and e.args]
+            for k_ in keys_:
+                want = f"elem({alias_p})" if is_list else alias_p
+                seen_kinds.add(bool(is_list))
+                if is_list is None or k_ != want:
+                    ok_a, why_a = False, f"with isinstance(alias, list)={is_list} the implementation is registered under {k_}"
+        ok_a = ok_a and seen_kinds == {True, False}
+    res.add("labrea.dataset.Dataset.overload:a single alias is registered whole, a list element-wise", ok_a, ds.module.relpath, ovl.lineno if ovl else 0,
+            why_a or "alias -> [alias] unless it is a list", nec)
     sd = ds.methods.get("set_dispatch")
     ok = False
     if sd is not None:
